@@ -21,6 +21,8 @@ import (
 	"github.com/nspcc-dev/neo-go/pkg/smartcontract/callflag"
 	"github.com/nspcc-dev/neo-go/pkg/smartcontract/manifest"
 	"github.com/nspcc-dev/neo-go/pkg/smartcontract/nef"
+	"github.com/nspcc-dev/neo-go/pkg/util"
+	"github.com/nspcc-dev/neo-go/pkg/vm"
 	"github.com/nspcc-dev/neo-go/pkg/vm/emit"
 	"github.com/nspcc-dev/neo-go/pkg/vm/opcode"
 	"github.com/nspcc-dev/neo-go/pkg/vm/stackitem"
@@ -32,7 +34,26 @@ import (
 	"github.com/nspcc-dev/neo-go/pkg/neotest"
 )
 
-var c06StaleFams = []string{"control", "vub", "conflict-in", "conflict-out", "balance", "blocked", "nvb", "oracle"}
+var c06StaleFams = []string{"control", "vub", "conflict-in", "conflict-out", "balance", "blocked", "nvb", "oracle",
+	// a committee change of a Policy value in block H+1 (c06PolicyFams)
+	"fpb-up3", "fpb-up20", "fpb-down-up", "fpb-down", "execfee-up", "execfee-down", "attrfee-up", "maxvub-down", "unblocked"}
+
+// c06PolicyFams: block H+1 carries a committee transaction that changes a Policy value T's validity depends on.
+//   fpb-up3      FeePerByte x3: T's fee per byte (network fee / size, verification included) stays above the new value,
+//                but what is left after size*FeePerByte no longer pays for the verification
+//   fpb-up20     FeePerByte x20: T's fee per byte is below the new value
+//   fpb-down-up  a preparation block lowers FeePerByte to a half, T (a large transaction, small fee per byte) is pooled
+//                under it, H+1 raises it again, but not above the value the pool saw before the decrease
+//   fpb-down     FeePerByte halved in H+1; T pays for the new value only (cannot be pooled at H: fresh variant only)
+//   execfee-up   ExecFeeFactor x3: T's network fee no longer covers its signature check
+//   execfee-down ExecFeeFactor lowered; T pays for the new value only (fresh variant only)
+//   attrfee-up   the fee of the Conflicts attribute raised from 0; T carries one
+//   maxvub-down  MaxValidUntilBlockIncrement lowered to 1; T's ValidUntilBlock is further away
+//   unblocked    T's signer was blocked by a preparation block and is unblocked in H+1 (fresh variant only)
+var c06PolicyFams = []string{"fpb-up3", "fpb-up20", "fpb-down-up", "fpb-down", "execfee-up", "execfee-down", "attrfee-up", "maxvub-down", "unblocked"}
+
+// families whose T cannot be in the pool at H
+var c06FreshOnly = map[string]bool{"nvb": true, "fpb-down": true, "execfee-down": true, "unblocked": true}
 
 type c06StaleIn struct {
 	Cfg    c02Cfg    `json:"cfg"`
@@ -92,6 +113,42 @@ func c06RunStale(co *caseOut, in c06StaleIn) error {
 				tx.Attributes = attrs
 				return e.SignTx(t, tx, sysfee, accs[from])
 			}
+			policyTx := func(method string, args ...any) *transaction.Transaction {
+				tx := e.NewUnsignedTx(t, e.NativeHash(t, nativenames.Policy), method, args...)
+				tx.ValidUntilBlock = rb.BlockHeight() + 3
+				return e.SignTx(t, tx, 5_0000_0000, e.Committee)
+			}
+			// preparation blocks (every replica processes them before H)
+			prep := func(txs ...*transaction.Transaction) {
+				pb := e.NewUnsignedBlock(t, txs...)
+				e.SignBlock(pb)
+				if err := rb.AddBlock(pb); err != nil {
+					panic("preparation block refused: " + err.Error())
+				}
+				pre = append(pre, pb)
+				H = rb.BlockHeight()
+			}
+			fpb0 := rb.FeePerByte()
+			// a transfer with a large script: size bytes of data are pushed and dropped first
+			mkBig := func(from int, vub uint32, size int) *transaction.Transaction {
+				w := nio.NewBufBinWriter()
+				emit.Bytes(w.BinWriter, bytes.Repeat([]byte{0x42}, size))
+				emit.Opcodes(w.BinWriter, opcode.DROP)
+				emit.AppCall(w.BinWriter, gas, "transfer", callflag.All, accs[from].ScriptHash(), accs[(from+1)%c02NAcc].ScriptHash(), 1, nil)
+				emit.Opcodes(w.BinWriter, opcode.ASSERT)
+				tx := transaction.New(w.Bytes(), 0)
+				tx.Nonce = neotest.Nonce()
+				tx.ValidUntilBlock = vub
+				tx.Signers = []transaction.Signer{{Account: accs[from].ScriptHash(), Scopes: transaction.CalledByEntry}}
+				return e.SignTx(t, tx, 1_0000_0000, accs[from])
+			}
+			switch fam {
+			case "fpb-down-up":
+				prep() // the victim's pool sees the original value first
+				prep(policyTx("setFeePerByte", fpb0/2))
+			case "unblocked":
+				prep(policyTx("blockAccount", accs[2].ScriptHash()))
+			}
 			var b1txs []*transaction.Transaction
 			switch fam {
 			case "control":
@@ -122,6 +179,32 @@ func c06RunStale(co *caseOut, in c06StaleIn) error {
 			case "oracle":
 				// T answers request 0; the intervening block carries ANOTHER response to the same request
 				b1txs = append(b1txs, b1txsOracle)
+			case "fpb-up3", "fpb-up20":
+				T = mkT(0, H+3, 1_0000_0000)
+				k := int64(3)
+				if fam == "fpb-up20" {
+					k = 20
+				}
+				b1txs = append(b1txs, policyTx("setFeePerByte", rb.FeePerByte()*k))
+			case "fpb-down-up":
+				// T: a large script (the verification is a small part of its network fee), minimal fee under the halved value
+				T = mkBig(0, H+3, 6000)
+				b1txs = append(b1txs, policyTx("setFeePerByte", fpb0*9/10))
+			case "fpb-down":
+				b1txs = append(b1txs, policyTx("setFeePerByte", rb.FeePerByte()/2))
+			case "execfee-up":
+				T = mkT(0, H+3, 1_0000_0000)
+				b1txs = append(b1txs, policyTx("setExecFeeFactor", execFactor(rb)*3))
+			case "execfee-down":
+				b1txs = append(b1txs, policyTx("setExecFeeFactor", execFactor(rb)/3))
+			case "attrfee-up":
+				T = mkT(0, H+3, 1_0000_0000, transaction.Attribute{Type: transaction.ConflictsT, Value: &transaction.Conflicts{Hash: util.Uint256{0xc0, 0x6}}})
+				b1txs = append(b1txs, policyTx("setAttributeFee", int64(transaction.ConflictsT), int64(500_0000)))
+			case "maxvub-down":
+				T = mkT(0, H+rb.GetMaxValidUntilBlockIncrement(), 1_0000_0000)
+				b1txs = append(b1txs, policyTx("setMaxValidUntilBlockIncrement", int64(1)))
+			case "unblocked":
+				b1txs = append(b1txs, policyTx("unblockAccount", accs[2].ScriptHash()))
 			default:
 				panic("unknown family " + fam)
 			}
@@ -129,6 +212,12 @@ func c06RunStale(co *caseOut, in c06StaleIn) error {
 			e.SignBlock(b1)
 			if err := rb.AddBlock(b1); err != nil {
 				panic("intervening block refused: " + err.Error())
+			}
+			switch fam {
+			case "fpb-down", "execfee-down":
+				T = mkT(0, H+3, 1_0000_0000) // signed at H+1: its network fee is the minimum under the NEW policy
+			case "unblocked":
+				T = mkT(2, H+3, 1_0000_0000)
 			}
 			freshErr = rb.VerifyTx(T) // a node that never pooled T, at H+1
 			b2 = e.NewUnsignedBlock(t, T)
@@ -160,8 +249,8 @@ func c06RunStale(co *caseOut, in c06StaleIn) error {
 			}
 			if pooled {
 				if err := v.PoolTx(T); err != nil {
-					if fam == "nvb" {
-						return // cannot be pooled before its height: only the fresh variant exists
+					if c06FreshOnly[fam] {
+						return // cannot be pooled at H: only the fresh variant exists
 					}
 					viol("setup-pool", err.Error())
 					return
@@ -248,7 +337,16 @@ func c06StaleOps() []string {
 	for _, f := range []string{"control", "vub", "blocked"} {
 		ops = append(ops, f+"/pooled/noverify", f+"/fresh/noverify")
 	}
-	return ops
+	// remove the pooled variant of the families whose T cannot be pooled at H
+	out := ops[:0]
+	for _, o := range ops {
+		f, rest, _ := strings.Cut(o, "/")
+		if c06FreshOnly[f] && strings.HasPrefix(rest, "pooled") && f != "nvb" {
+			continue
+		}
+		out = append(out, o)
+	}
+	return out
 }
 
 // c06OracleSetup deploys a minimal contract that files an oracle request, designates one oracle node, funds
@@ -306,4 +404,9 @@ func c06OracleSetup(t *c02T, e *neotest.Executor, bc *core.Blockchain) (*transac
 		return tx
 	}
 	return resp([]byte{1, 2, 3}), resp([]byte{9, 9})
+}
+
+// the ExecFeeFactor as Policy's setter takes it
+func execFactor(bc *core.Blockchain) int64 {
+	return bc.GetBaseExecFee() / vm.ExecFeeFactorMultiplier
 }
